@@ -4,12 +4,16 @@
     certified automata for constraint lists that agree at position i (other
     patterns, another order, another determinisation heuristic) accept pattern
     i under exactly the same valuations (same hosts and anchors), and so does
-    the one-pattern automaton.  The step from abstract acceptance to the
-    concrete traversal is as in C01 (proved, soundness direction) and C02
-    (correspondence/oracle, completeness direction).
-    Proofs in Proofs/AbsEquiv.v. *)
+    the one-pattern automaton.  For strings the statement is carried down to
+    the two matchers themselves (c03_string_many_equals_naive): the run on a
+    certified automaton and NaiveManyMatcher report every non-empty pattern at
+    exactly the same host positions.  For the other domains the step from
+    abstract acceptance to the concrete traversal is as in C01 (proved,
+    soundness direction) and C02 (correspondence/oracle, completeness direction).
+    Proofs in Proofs/AbsEquiv.v, StringExact.v, StringSingle.v. *)
 From PM Require Import Model.Prelude Model.Domain Model.Automaton
-  Cert.LabCheck Cert.WinCheck Proofs.AbsEquiv.
+  Model.Traversal Model.Matchers Model.DomString
+  Cert.LabCheck Cert.WinCheck Proofs.AbsEquiv Proofs.StringExact Proofs.StringSingle.
 
 Theorem c03_accepts_iff_constraints :
   forall (K V M H P : Type) (D : DomOps K V M H P), DomEq D ->
@@ -53,5 +57,19 @@ Proof.
   tauto.
 Qed.
 
+Theorem c03_string_many_equals_naive :
+  forall A L rk ids (pats : list spattern) present h f1 f2 ms1 ms2 i p a,
+    s_certified A L rk ids pats present ->
+    run string_dom f1 A h = Ok ms1 ->
+    naive string_dom f2 (map s_cvec pats) h = Ok ms2 ->
+    nth_error pats i = Some p -> nth_error present i = Some true -> p <> [] ->
+    ((exists len, In (N.of_nat i, SBound a len) ms1) <-> (exists len, In (N.of_nat i, SBound a len) ms2)).
+Proof.
+  intros A L rk ids pats present h f1 f2 ms1 ms2 i p a C R Nv Hp Hpr Hne.
+  rewrite (s_run_exact A L rk ids pats present h f1 ms1 i p a C R Hp Hpr Hne).
+  rewrite (s_naive_exact pats h f2 ms2 i p a Nv Hp Hne). tauto.
+Qed.
+
 Print Assumptions c03_accepts_iff_constraints.
+Print Assumptions c03_string_many_equals_naive.
 Print Assumptions c04_c06_certified_automata_agree.
